@@ -22,7 +22,16 @@ func NewLinearHist(min, max float64, nbins int) *LinearHist {
 }
 
 func (h *LinearHist) bin(x float64) int {
-	return int(math.Floor(h.delta * (x - h.min)))
+	b := math.Floor(h.delta * (x - h.min))
+	// Clamp before converting: converting a float64 outside the
+	// range of int is implementation-defined and would count huge
+	// values and +Inf as underflow.
+	if b >= float64(len(h.bins)) {
+		return len(h.bins)
+	} else if b < 0 {
+		return -1
+	}
+	return int(b)
 }
 
 func (h *LinearHist) Add(x float64) {
